@@ -91,7 +91,7 @@ def detect(sid, props=None):
         if rc != 0:
             print(sid, "PATCH DOES NOT APPLY", out[-300:])
             return None
-        env = dict(os.environ, ROCKIT_REPO=tmp)
+        env = dict(os.environ, ROCKIT_REPO=tmp, RKVERIF_SHARE_PROG="1")
         hits, errs = {}, {}
         code = ("import sys, json; sys.path.insert(0, %r); from rkverif.core import run_property\n"
                 "out = {}\n"
@@ -144,7 +144,7 @@ def refcheck(rid):
         if rc != 0:
             print(rid, "PATCH DOES NOT APPLY", out[-200:])
             return None
-        env = dict(os.environ, ROCKIT_REPO=tmp)
+        env = dict(os.environ, ROCKIT_REPO=tmp, RKVERIF_SHARE_PROG="1")
         code = ("import sys, json; sys.setrecursionlimit(20000); sys.path.insert(0, %r); from rkverif.core import run_property\n"
                 "out = {}\n"
                 "for pid in %r:\n"
